@@ -174,6 +174,45 @@ bulk! {
 	c07t_bulk_enc_i32 c07t_bulk_dec_i32: i32, 16, 9, 15; c07t_bulk_enc_i128 c07t_bulk_dec_i128: i128, 52, 33, 51; c07t_bulk_enc_f64 c07t_bulk_dec_f64: f64, 28, 17, 27;
 }
 
+// ---- std only: streaming into an io::Write sink (the blanket `Output for W: io::Write`), incl. a sink that accepts
+// only a few bytes per write call (pipe/socket-like): every byte must still arrive, in order
+#[cfg(feature = "cfg_std")]
+pub mod io_write {
+	use super::*;
+	pub struct ShortWriter { pub d: [u8; 24], pub n: usize, pub per_call: usize, pub calls: usize }
+	impl std::io::Write for ShortWriter {
+		fn write(&mut self, buf: &[u8]) -> std::io::Result<usize> {
+			let mut k = buf.len();
+			if k > self.per_call { k = self.per_call; }
+			let mut i = 0;
+			while i < k { self.d[self.n + i] = buf[i]; i += 1; }
+			self.n += k;
+			self.calls += 1;
+			Ok(k)
+		}
+		fn flush(&mut self) -> std::io::Result<()> { Ok(()) }
+	}
+	fn h_io_write<T: Encode + Sym, const N: usize>(c: usize) {
+		let v = T::sym(c);
+		let mut a = Buf::<N>::new();
+		v.encode_to(&mut a);
+		let per_call: usize = kani::any();
+		kani::assume(per_call >= 1 && per_call <= 3);
+		let mut w = ShortWriter { d: [0; 24], n: 0, per_call, calls: 0 };
+		v.encode_to(&mut w);
+		assert!(w.n == a.n, "streaming into a short-writing io::Write sink lost or duplicated bytes");
+		let mut i = 0;
+		while i < a.n { assert!(w.d[i] == a.d[i], "streaming into an io::Write sink changed a byte"); i += 1; }
+		core::mem::forget(v);
+	}
+	#[kani::proof] #[kani::unwind(12)] pub fn c07q_iow_u64() { h_io_write::<u64, 12>(0) }
+	#[kani::proof] #[kani::unwind(12)] pub fn c07q_iow_vec_u16_3() { h_io_write::<Vec<u16>, 12>(3) }
+	#[kani::proof] #[kani::unwind(12)] pub fn c07q_iow_vec_opt_2() { h_io_write::<Vec<Option<u8>>, 12>(2) }
+	#[kani::proof] #[kani::unwind(12)] pub fn c07t_iow_arr_u32_2() { h_io_write::<[u32; 2], 12>(0) }
+	#[kani::proof] #[kani::unwind(19)] pub fn c07t_iow_compact_u32() { h_io_write::<Compact<u32>, 20>(0) }
+	#[kani::proof] #[kani::unwind(12)] pub fn c07t_iow_string_3() { h_io_write::<String, 12>(3) }
+}
+
 /// negative twin: "encoded_size is always 4 for u32 vectors" must FAIL
 #[kani::proof]
 #[kani::unwind(12)]
